@@ -314,13 +314,14 @@ def check_roundtrip_sim(chk, rule='C14.R'):
 
 def run(chk):
     chk.rule('C14.R', 'jsonParse(jsonStringify(v)) = v, valid JSON, sorted keys, integral numbers without fraction: evaluation on concrete JSON values (E6l)', floor=500)
-    chk._json_roundtrip_ok = bool(chk.guard('C14.R', check_roundtrip_sim, chk))
+    rt = chk.guard('C14.R', check_roundtrip_sim, chk)
+    chk._json_roundtrip_ok = bool(rt)
     chk.rule('C14.E', 'encoder configuration; jsonParse / jsonStringify wiring', floor=5)
     chk.rule('C14.S', 'substitutions on encoder output cannot change string tokens (token-aware by automata equivalence, or unable to match inside a token)', floor=1)
     chk.rule('C14.N', 'number clean-up follow set = all structural followers of a number', floor=6)
     chk.rule('C14.K', 'grouping / join keys are value_json serialisations', floor=4)
     chk.assumptions += ['host json: JSONEncoder with ensure_ascii writes every non-ASCII/control character as an escape; json.loads inverts it; float repr round-trips (C13)']
-    (chk.advisory if chk._json_roundtrip_ok else chk.guard)('C14.E', check_encoders, chk)
+    chk.readback(rt)('C14.E', check_encoders, chk)
     if chk._json_roundtrip_ok:
         chk.floors.pop('C14.E', None)
     aware = chk.guard('C14.S', check_substitutions, chk)
